@@ -9,15 +9,21 @@ CONSTANT Tier
 I(n) == IntL(n)
 DefSites == {"T0", "IF", "IFNEST", "ELIF", "ELSE", "FORINIT", "FORBODY", "RANGEVAL", "RANGEIDX", "RANGEBODY", "CASE1", "CASE2", "DEFAULT", "PARAM", "FUNCBODY", "FUNCIF", "T1", "T2"}
 UseSites == {"T0", "IF", "IFNEST", "IFCOND", "ELIF", "ELIFCOND", "ELSE", "FORCOND", "FORPOST", "FORBODY", "RANGEBODY", "RANGEOPND", "CASE1", "CASE2", "CASEEXPR", "DEFAULT", "FUNCBODY", "FUNCIF", "FUNCRET", "T1", "CALLARG", "T2"}
-DefV == Def1("v", I("1"))
+\* definition forms: v := 1 | var v int = 1 | var v int | v, w2 := 1, 2 | v, w2 := two() | var v, w2 = two() | v := one()
+Forms == IF Tier = "quick" THEN {"short", "callmulti", "varcall"} ELSE {"short", "vartyped", "vardecl", "multi", "callmulti", "varcall", "callsingle"}
+DefVF(F) == CASE F = "short" -> Def1("v", I("1")) [] F = "vartyped" -> VarDef(<<"v">>, "int", <<I("1")>>) [] F = "vardecl" -> VarDef(<<"v">>, "int", <<>>)
+              [] F = "multi" -> Def(<<"v", "w2">>, <<I("1"), I("2")>>) [] F = "callmulti" -> Def(<<"v", "w2">>, <<CallE("two", <<>>)>>)
+              [] F = "varcall" -> VarDef(<<"v", "w2">>, "", <<CallE("two", <<>>)>>) [] F = "callsingle" -> Def1("v", CallE("one", <<>>))
 UseV == Print1(Var("v"))
 VEq == CmpE("==", Var("v"), Var("v"))
-Skeleton(D, U, order) ==
-  LET S(site) == IF D = site /\ U = site THEN (IF order = "du" THEN <<DefV, UseV>> ELSE <<UseV, DefV>>)
+Skeleton(D, U, order, F) ==
+  LET DefV == DefVF(F)
+      S(site) == IF D = site /\ U = site THEN (IF order = "du" THEN <<DefV, UseV>> ELSE <<UseV, DefV>>)
                  ELSE IF D = site THEN <<DefV>> ELSE IF U = site THEN <<UseV>> ELSE <<>>
       c == IF D = "FORINIT" THEN "v" ELSE "k"
       And(e, site) == IF U = site THEN Lgc("&&", e, VEq) ELSE e
-  IN <<Def1("xb", BoolL(TRUE)), Def1("xi", I("1")), Def1("si", SliceLit("int", <<I("4"), I("5")>>))>>
+  IN <<Func("two", <<>>, <<"int", "int">>, <<RetS(<<I("1"), I("2")>>)>>), Func("one", <<>>, <<"int">>, <<RetS(<<I("1")>>)>>),
+       Def1("xb", BoolL(TRUE)), Def1("xi", I("1")), Def1("si", SliceLit("int", <<I("4"), I("5")>>))>>
      \o S("T0")
      \o <<If(<<Branch(And(Var("xb"), "IFCOND"), S("IF") \o <<If1(Var("xb"), S("IFNEST"))>>),
                Branch(And(Not(Var("xb")), "ELIFCOND"), S("ELIF"))>>, S("ELSE") \o <<Print1(StrL("else"))>>),
@@ -32,9 +38,14 @@ Skeleton(D, U, order) ==
      \o S("T1")
      \o <<Def1("res", CallE("f", <<IF U = "CALLARG" THEN Var("v") ELSE I("7")>>))>>
      \o S("T2")
-VarPairs == {CaseOf("C07/var/" \o D \o "-" \o U, Skeleton(D, U, "du")) : D \in DefSites, U \in UseSites}
-            \cup {CaseOf("C07/var/" \o D \o "-" \o D \o "/usefirst", Skeleton(D, D, "ud")) : D \in DefSites \cap UseSites}
-            \cup {CaseOf("C07/var/none-" \o U, Skeleton("NONE", U, "du")) : U \in UseSites}
+\* sites where a statement can be placed (a loop header, a range clause or a parameter list admit one form only)
+StmtSites == DefSites \ {"FORINIT", "RANGEVAL", "RANGEIDX", "PARAM"}
+VarPairs == {CaseOf("C07/var/" \o D \o "-" \o U, Skeleton(D, U, "du", "short")) : D \in DefSites, U \in UseSites}
+            \cup {CaseOf("C07/var/" \o D \o "-" \o U \o "/" \o F, Skeleton(D, U, "du", F)) : D \in StmtSites, U \in UseSites, F \in Forms \ {"short"}}
+            \cup {CaseOf("C07/var/" \o D \o "-" \o D \o "/usefirst", Skeleton(D, D, "ud", "short")) : D \in DefSites \cap UseSites}
+            \cup {CaseOf("C07/var/none-" \o U, Skeleton("NONE", U, "du", "short")) : U \in UseSites}
+\* a legal redefinition after / beside the block that held the first definition, for every form of both definitions
+Redef2 == {CaseOf("C07/redef2/" \o D \o "/" \o F \o "-" \o G, Skeleton(D, "NONE", "du", F) \o <<DefVF(G), UseV>>) : D \in StmtSites \ {"T2"}, F \in Forms, G \in Forms}
 
 \* functions: definition site x call site
 FDefSites == {"T0", "T1", "T2", "IF", "FOR", "CASE", "INFUNC"}
@@ -117,6 +128,6 @@ Redef ==
    CaseOf("C07/setidx-undefined", <<SetIdx("a", I("0"), I("1"))>>), CaseOf("C07/copy-undefined", <<Def1("s", SliceLit("int", <<>>)), Def1("n", CopyE("a", Var("s")))>>),
    CaseOf("C07/assign-blocklocal-after", <<If1(BoolL(TRUE), <<Def1("a", I("1"))>>), Asg1("a", I("2"))>>)}
 
-All == VarPairs \cup FuncPairs \cup PlaceCases \cup Redef
+All == VarPairs \cup FuncPairs \cup PlaceCases \cup Redef \cup Redef2
 ASSUME ndJsonSerialize("fam.ndjson", SetToSeq(All))
 =============================================================================
